@@ -467,7 +467,7 @@ class ParserText(ParserBase):
             if date_time.tzinfo is None or date_time.utcoffset() is None:
                 date_time = date_time.replace(tzinfo=dateutil.tz.UTC)
             else:
-                date_time.astimezone(dateutil.tz.UTC)
+                date_time = date_time.astimezone(dateutil.tz.UTC)
         except (ValueError, OverflowError) as e:
             six.raise_from(InvalidValue(value, type(self), 'value'), e)
 
